@@ -103,6 +103,75 @@ fn random(a: &Args) {
     );
 }
 
+#[derive(Default)]
+struct ReplayAcc {
+    behaviours: usize,
+    insts: usize,
+    matched: usize,
+    drift: usize,
+    drift_behaviours: usize,
+    written: usize,
+    out: Vec<u8>,
+    samples: Vec<Value>,
+    drift_samples: Vec<Value>,
+    shapes: BTreeMap<String, usize>,
+}
+
+/// One chunk of REPLAY lines on one thread (own RNG, own output buffer).
+fn replay_chunk(lines: &[String], first_no: usize, seed: u64, variants: usize, keep: usize, max_drift: usize) -> ReplayAcc {
+    let mut rng = StdRng::seed_from_u64(seed);
+    let mut acc = ReplayAcc::default();
+    for (k, line) in lines.iter().enumerate() {
+        let (Some(s), Some(e)) = (line.find("\"{"), line.rfind("}\"")) else { continue };
+        let inner: String = match serde_json::from_str(&line[s..e + 2]) {
+            Ok(x) => x,
+            Err(_) => continue,
+        };
+        let st: Value = serde_json::from_str(&inner).unwrap();
+        let (prog, ids) = prog_of_state(&st);
+        acc.behaviours += 1;
+        *acc.shapes.entry(serde_json::to_string(&ids).unwrap()).or_default() += 1;
+        let mut res = Vec::new();
+        prog.resources(&mut res);
+        // all variants of one behaviour are kept or dropped together (variant 0 is the
+        // reference of the C19 comparison in ShredTrace)
+        let sample_this = acc.written < keep && rng.gen_bool(0.01);
+        let mut buf: Vec<Value> = Vec::new();
+        let mut any_drift = false;
+        for v in 0..variants {
+            let variant = if v == 0 { Variant::identity(&res) } else { Variant::random(&res, &mut rng) };
+            let r = record_registration(&prog, variant, first_no + k, v, false);
+            acc.insts += 1;
+            let built = r.rec.events.last().unwrap();
+            let real: Vec<Vec<Vec<u64>>> = serde_json::from_value(built["lay"].clone()).unwrap_or_default();
+            let ok = real == ids && r.rec.events.iter().all(|e| e["out"].is_null() || e["out"] == "ok");
+            if ok {
+                acc.matched += 1;
+                if acc.samples.len() < 3 {
+                    acc.samples.push(json!({"prog": prog, "layout": ids}));
+                }
+            } else {
+                acc.drift += 1;
+                any_drift = true;
+                if acc.drift_samples.len() < 5 {
+                    acc.drift_samples.push(json!({"prog": prog, "model": ids, "real": real, "placements": placements(&r.rec.events)}));
+                }
+            }
+            buf.extend(r.rec.events);
+        }
+        if any_drift {
+            acc.drift_behaviours += 1;
+            if acc.drift_behaviours <= max_drift {
+                write_events(&mut acc.out, &buf);
+            }
+        } else if sample_this {
+            write_events(&mut acc.out, &buf);
+            acc.written += 1;
+        }
+    }
+    acc
+}
+
 fn replay(a: &Args) {
     let inp = a.get("in").expect("--in");
     let out = a.get("out").expect("--out");
@@ -110,70 +179,49 @@ fn replay(a: &Args) {
     let variants: usize = a.num("variants", 2);
     let keep: usize = a.num("keep-matching", 200);
     let max_drift: usize = a.num("max-drift", 300);
-    let mut rng = StdRng::seed_from_u64(seed);
+    let threads: usize = a.num("threads", 8);
     let mut w = BufWriter::new(File::create(out).unwrap());
     let rd = BufReader::new(File::open(inp).unwrap());
-    let (mut behaviours, mut insts, mut matched, mut drift, mut written, mut drift_behaviours) = (0usize, 0usize, 0usize, 0usize, 0usize, 0usize);
-    let mut drift_samples: Vec<Value> = Vec::new();
-    let mut samples: Vec<Value> = Vec::new();
-    let mut shapes: BTreeMap<String, usize> = BTreeMap::new();
-    for line in rd.lines() {
-        let line = line.unwrap();
-        let (Some(s), Some(e)) = (line.find("\"{"), line.rfind("}\"")) else { continue };
-        if !line.starts_with("<<\"REPLAY\"") {
-            continue;
-        }
-        let inner: String = match serde_json::from_str(&line[s..e + 2]) {
-            Ok(x) => x,
-            Err(_) => continue,
-        };
-        let st: Value = serde_json::from_str(&inner).unwrap();
-        let (prog, ids) = prog_of_state(&st);
-        behaviours += 1;
-        *shapes.entry(serde_json::to_string(&ids).unwrap()).or_default() += 1;
-        let mut res = Vec::new();
-        prog.resources(&mut res);
-        // all variants of one behaviour are kept or dropped together (variant 0 is the
-        // reference of the C19 comparison in ShredTrace)
-        let sample_this = written < keep && rng.gen_bool(0.01);
-        let mut buf: Vec<Value> = Vec::new();
-        let mut any_drift = false;
-        for v in 0..variants {
-            let variant = if v == 0 { Variant::identity(&res) } else { Variant::random(&res, &mut rng) };
-            let r = record_registration(&prog, variant, behaviours, v, false);
-            insts += 1;
-            let built = r.rec.events.last().unwrap();
-            let real: Vec<Vec<Vec<u64>>> = serde_json::from_value(built["lay"].clone()).unwrap_or_default();
-            let ok = real == ids && r.rec.events.iter().all(|e| e["out"].is_null() || e["out"] == "ok");
-            if ok {
-                matched += 1;
-                if samples.len() < 3 {
-                    samples.push(json!({"prog": prog, "layout": ids}));
-                }
-            } else {
-                drift += 1;
-                any_drift = true;
-                if drift_samples.len() < 5 {
-                    drift_samples.push(json!({"prog": prog, "model": ids, "real": real, "placements": placements(&r.rec.events)}));
-                }
+    let lines: Vec<String> = rd.lines().map(|l| l.unwrap()).filter(|l| l.starts_with("<<\"REPLAY\"")).collect();
+    let chunk = (lines.len() + threads - 1) / threads.max(1);
+    let accs: Vec<ReplayAcc> = std::thread::scope(|sc| {
+        let hs: Vec<_> = lines
+            .chunks(chunk.max(1))
+            .enumerate()
+            .map(|(i, c)| sc.spawn(move || {
+                shredh::quiet_panics();
+                replay_chunk(c, 1 + i * chunk, seed.wrapping_mul(1000).wrapping_add(i as u64), variants, keep / threads + 1, max_drift / threads + 1)
+            }))
+            .collect();
+        hs.into_iter().map(|h| h.join().unwrap()).collect()
+    });
+    let mut t = ReplayAcc::default();
+    for acc in accs {
+        t.behaviours += acc.behaviours;
+        t.insts += acc.insts;
+        t.matched += acc.matched;
+        t.drift += acc.drift;
+        t.written += acc.written;
+        w.write_all(&acc.out).unwrap();
+        for x in acc.samples {
+            if t.samples.len() < 3 {
+                t.samples.push(x);
             }
-            buf.extend(r.rec.events);
         }
-        if any_drift {
-            drift_behaviours += 1;
-            if drift_behaviours <= max_drift {
-                write_events(&mut w, &buf);
+        for x in acc.drift_samples {
+            if t.drift_samples.len() < 5 {
+                t.drift_samples.push(x);
             }
-        } else if sample_this {
-            write_events(&mut w, &buf);
-            written += 1;
+        }
+        for (k, v) in acc.shapes {
+            *t.shapes.entry(k).or_default() += v;
         }
     }
     w.flush().unwrap();
     println!(
         "{}",
-        json!({"behaviours":behaviours,"instantiations":insts,"matched":matched,"drift":drift,
-               "distinct_layouts":shapes.len(),"validated_sample":written,"samples":samples,"drift_samples":drift_samples})
+        json!({"behaviours":t.behaviours,"instantiations":t.insts,"matched":t.matched,"drift":t.drift,
+               "distinct_layouts":t.shapes.len(),"validated_sample":t.written,"samples":t.samples,"drift_samples":t.drift_samples})
     );
 }
 
